@@ -14,6 +14,7 @@ import (
 	"strconv"
 	"strings"
 
+	"github.com/zeromicro/go-zero/core/codec"
 	"github.com/zeromicro/go-zero/rest/handler"
 )
 
@@ -185,4 +186,101 @@ func cryptCases(thorough bool) []cryptCase {
 		}
 	}
 	return out
+}
+
+// ---------- core/codec client-side helpers (EcbEncryptBase64 / EcbDecryptBase64) ----------
+//
+// The base64 flavour of the AES helpers is what a Go client of an encrypted route uses. For every
+// key spelling and payload: decrypt(encrypt(p)) == p, and - where the spelling of the key is
+// unambiguous (a raw key containing characters outside the base64 alphabet; a 44-character
+// base64 text, which is longer than any raw AES key) - the ciphertext is the one the harness' own
+// AES-ECB/PKCS#7 produces, i.e. what CryptionHandler on the server side understands.
+
+type codecCase struct {
+	KeyForm string `json:"key_form"` // raw16 | raw24 | raw32 | b64of32
+	Pattern int    `json:"pattern"`
+	Len     int    `json:"len"`
+}
+
+func (c codecCase) String() string {
+	return fmt.Sprintf("codec.Ecb*Base64 key=%s payload=p%d:%d", c.KeyForm, c.Pattern, c.Len)
+}
+
+func checkCodec(c codecCase) *pending {
+	cc := c
+	rep := replayCase{Family: "codec", Codec: &cc}
+	raw := []byte("k!y-0123456789abcdef#GHIJKLMNOP$")
+	var keyText string
+	var keyBytes []byte
+	switch c.KeyForm {
+	case "raw16":
+		keyBytes = raw[:16]
+		keyText = string(keyBytes)
+	case "raw24":
+		keyBytes = raw[:24]
+		keyText = string(keyBytes)
+	case "raw32":
+		keyBytes = raw
+		keyText = string(keyBytes)
+	default:
+		keyBytes = raw
+		keyText = base64.StdEncoding.EncodeToString(raw)
+	}
+	payload := genPayload(c.Pattern, c.Len)
+	src := base64.StdEncoding.EncodeToString(payload)
+	var enc, dec string
+	var err1, err2 error
+	if pi := guard(func() {
+		enc, err1 = codec.EcbEncryptBase64(keyText, src)
+		if err1 == nil {
+			dec, err2 = codec.EcbDecryptBase64(keyText, enc)
+		}
+	}); pi != nil {
+		return panicPending(pi, c.String(), rep)
+	}
+	fail := func(class, msg string) *pending {
+		return &pending{Class: class, Desc: msg + " [" + c.String() + "]", Replay: rep}
+	}
+	if err1 != nil || err2 != nil {
+		return fail("codec-base64-roundtrip", fmt.Sprintf("encrypt err=%v decrypt err=%v", err1, err2))
+	}
+	if dec != src {
+		return fail("codec-base64-roundtrip", fmt.Sprintf("decrypt(encrypt(p)) = %q, p = %q", trunc([]byte(dec)), trunc([]byte(src))))
+	}
+	if want := base64.StdEncoding.EncodeToString(aesEncryptECB(keyBytes, payload)); enc != want {
+		return fail("codec-base64-interop", fmt.Sprintf("ciphertext %q differs from AES-ECB/PKCS#7 under the same key %q", trunc([]byte(enc)), trunc([]byte(want))))
+	}
+	return nil
+}
+
+func codecJobs(thorough bool) []job {
+	var cases []codecCase
+	for _, kf := range []string{"raw16", "raw24", "raw32", "b64of32"} {
+		for _, n := range cryptLengths(thorough) {
+			for p := 0; p < nPatterns; p++ {
+				if n == 0 && p > 0 {
+					continue
+				}
+				cases = append(cases, codecCase{KeyForm: kf, Pattern: p, Len: n})
+			}
+		}
+	}
+	var jobs []job
+	for i := 0; i < len(cases); i += 128 {
+		chunk := cases[i:min(i+128, len(cases))]
+		jobs = append(jobs, job{name: "codec", run: func(o *jobOut) {
+			for _, c := range chunk {
+				p := checkCodec(c)
+				o.evals++
+				o.keys = append(o.keys, "codec|"+c.String())
+				if p != nil {
+					o.count("codec:failed")
+					o.violation(p)
+				} else {
+					o.count("codec:roundtrip-ok")
+				}
+			}
+		}})
+	}
+	return jobs
 }
